@@ -233,11 +233,32 @@ Theorem C14_checker_accepts_model_reset_partial : forall np na ns r s p, s < ns 
    else true) = true.
 Proof. exact reset_clause_model. Qed.
 Print Assumptions C14_checker_accepts_model_reset_partial.
-(* STILL OPEN: the handler-identity / handler-unregistered clause (check_starts needs the invariant
-   that ties the checker's threaded tables tracked_in / looked_in to the wrapper states of the
-   model; the lemmas it rests on -- sw_lookup, sw_track, sw_start, sw_end, sw_stream_peer,
-   started_eq, started_has -- are proved in proofs/PeerRegistry_proofs.v, the invariant's
-   preservation is not), and with it the single statement over Check_C14.check_from. *)
+(* handler-unregistered / handler-identity: given the invariant TI that ties the tables the checker
+   threads through a case (tracked_in, looked_in) to the wrapper states of the model -- it holds
+   initially (TI_init) and is preserved by every step (TI_step) -- the clause reports nothing. *)
+Theorem C14_checker_accepts_model_starts_partial : forall np na ns hist ti li e,
+  TI (run hist) ti li -> starts_clause np na ns hist ti li e = None.
+Proof. exact starts_clause_model. Qed.
+Print Assumptions C14_checker_accepts_model_starts_partial.
+
+Theorem C14_checker_tables_invariant : forall np na ns hist e ti li,
+  wf (hist ++ [e]) -> sids_bounded np ns (hist ++ [e]) -> TI (run hist) ti li ->
+  TI (step (run hist) e) (ti_next hist (Check_C14.snap_of np na ns (run hist)) ti e)
+                         (li_next (Check_C14.snap_of np na ns (run hist)) li e).
+Proof. exact TI_step. Qed.
+Print Assumptions C14_checker_tables_invariant.
+
+(* THE ONE-THEOREM FORM.  For every history of the model that is well-formed (wf), respects the
+   order libp2p guarantees (w3) and fits the universe of the case (bounded, sids_bounded), the checker
+   of bin/check -- Check_C14.violation, all clauses, threaded through check_from -- evaluated on the
+   model's own observations of that history (model_obs: every step observed, addPeer's answer, no
+   panic, no notification in flight, the snapshot of the state after the step) reports nothing. *)
+Theorem C14_checker_accepts_model : forall np nc na ns evs,
+  wf evs -> w3 evs -> bounded np nc na evs -> sids_bounded np ns evs ->
+  Check_C14.violation {| Check_C14.id := 0; Check_C14.c_np := np; Check_C14.c_nc := nc; Check_C14.c_na := na;
+                         Check_C14.c_ns := ns; Check_C14.c_evs := model_obs np na ns init evs |} = None.
+Proof. exact checker_accepts_model. Qed.
+Print Assumptions C14_checker_accepts_model.
 
 (* Blocking a peer (Service.blockPeer) does not touch the registry: a registered peer that is blocked
    stays registered until its last connection closes, and then gets its one notification like any
